@@ -29,9 +29,19 @@ package routing
 //@ assigns mapof(bp.Constraints), bp.store.$qok, c.$emitted, c.$lastOut
 //@ requires bp.bndl != nil ==> bp.Id == bp.bndl.ID() @C14
 
-// govc:trusted (*BundleDescriptor).AddConstraint
+// govc:func (*BundleDescriptor).AddConstraint property C05 C07
+//@ requires descriptor.Constraints != nil
+//@ ghost k Constraint
 //@ assigns mapof(descriptor.Constraints)
 //@ ensures has(descriptor.Constraints, c)
+//@ ensures k != c ==> has(descriptor.Constraints, k) == old(has(descriptor.Constraints, k))
+
+// govc:func (*BundleDescriptor).RemoveConstraint property C05 C07
+//@ requires descriptor.Constraints != nil
+//@ ghost k Constraint
+//@ assigns mapof(descriptor.Constraints)
+//@ ensures !has(descriptor.Constraints, c)
+//@ ensures k != c ==> has(descriptor.Constraints, k) == old(has(descriptor.Constraints, k))
 
 // govc:trusted (BundleDescriptor).Sync
 //@ assigns descriptor.store.$qok
@@ -76,7 +86,9 @@ package routing
 // govc:trusted (*Core).checkAdministrativeRecord
 //@ assigns nothing
 
-// govc:trusted (*Core).bundleContraindicated
+// Marking a bundle contraindicated keeps it in the store's pending set (Sync writes Pending for this constraint).
+// govc:func (*Core).bundleContraindicated property C05
+//@ requires bp.Constraints != nil
 //@ assigns mapof(bp.Constraints), bp.store.$qok
 //@ ensures has(bp.Constraints, Contraindicated)
 
@@ -137,3 +149,27 @@ package routing
 //@ requires c != nil && c.routing != nil && node != nil && bp.bndl != nil && blocksNonNil(*bp.bndl)
 //@ ensures !node.$lastSendOK ==> c.routing.$failReports == old(c.routing.$failReports) + 1 && c.routing.$lastFailed == ref(node)
 //@ ensures node.$lastSendOK ==> c.routing.$failReports == old(c.routing.$failReports)
+
+// Deleting a bundle: a "deleted" report is sent only if the bundle requested one, with the caller's reason; then every
+// constraint but the local-endpoint one is released (the store record goes when the set is empty).
+// (Callers use the assumed summary of bundleDeletion above, which adds the frame.)
+// govc:func (*Core).bundleDeletion property C15 C05
+//@ requires bp.bndl != nil && blocksNonNil(*bp.bndl) && bp.Constraints != nil
+//@ atcall SendStatusReport: arg2 == 3 && arg3 == reason && (uint64(bp.bndl.PrimaryBlock.BundleControlFlags) & 0x040000) != 0
+//@ ensures forall k Constraint :: has(bp.Constraints, k) ==> k == LocalEndpoint
+
+// ---- dispatching (C07): local delivery and forwarding exclude each other ----
+
+// govc:iface Algorithm.DispatchingAllowed
+//@ assigns nothing
+
+// Forwarding itself (goroutine fan-out, store updates) is outside reach as a whole; its per-peer goroutine is under
+// contract above.
+// govc:trusted (*Core).forward
+
+// A bundle whose destination is registered at this node is delivered locally and never handed to forward (not
+// transmitted to peers); every other bundle is forwarded and never delivered locally.
+// govc:func (*Core).dispatching property C07 C05
+//@ requires c.routing != nil && bp.Constraints != nil && bp.bndl != nil && blocksNonNil(*bp.bndl) && bp.Id == bp.bndl.ID() && c.agentManager != nil
+//@ atcall localDelivery: uf("coreHasEndpoint", bool, c, bp.bndl.PrimaryBlock.Destination)
+//@ atcall forward: !uf("coreHasEndpoint", bool, c, bp.bndl.PrimaryBlock.Destination)
